@@ -16,6 +16,10 @@ META = {
     "level_note": "Trusted: rustc MIR, tmfacts, walker; residual risk is the paper induction for s1 (as C01).",
 }
 
+# --- additions to the level description (rules added after the first version)
+META['level_text'] += " The reach of remove_mapping's two scans is decided per role: index i is skipped while the mapping being removed is still listed, everything is scanned once it has been taken out; iterator any()/slice forms are read as scans; the still-used scan must never count the removed mapping and the still-shadowed scan must see every remaining one. s2 also needs input_pressed_keys to forget every released key on every path (C01-R2, re-run)."
+# --- end additions
+
 ANM = MOD + "add_new_mapping"
 
 
